@@ -3,15 +3,25 @@
 package connectconformance
 
 import (
+	"context"
 	"encoding/binary"
+	"errors"
 	"fmt"
+	"go/ast"
+	"go/parser"
+	"go/token"
+	"io"
+	"math/big"
 	"os"
+	"path/filepath"
 	"regexp"
 	"sort"
 	"strconv"
 	"strings"
 	"testing"
+	"time"
 
+	"connectrpc.com/conformance/internal"
 	conformancev1 "connectrpc.com/conformance/internal/gen/proto/go/connectrpc/conformance/v1"
 	"google.golang.org/protobuf/proto"
 	"google.golang.org/protobuf/types/known/anypb"
@@ -19,21 +29,160 @@ import (
 
 func init() {
 	verifKinds["c03.assert"] = verifC03Assert
+	verifKinds["c03.run"] = verifC03Run
 	verifKinds["c03.canon"] = verifC03Canon
 	verifKinds["c03.merge"] = verifC03Merge
 }
 
 // TestVerifConsts prints the constants of results.go that the Coq model depends on.
+//
+// The grace period is read from its DECLARATION in the package's source (the test runs
+// in the package directory), not through its identifier: the model wants to know which
+// duration the constant is declared to be - its numeric value and the unit that value is
+// counted in - so that the use checkRequestInfo makes of the number (a computation in
+// milliseconds) is checked against it.  Understood forms: an untyped integer whose name
+// says the unit (...Millis, ...Ms, ...Seconds, ...Micros, ...Nanos) and products of
+// integers with time.Nanosecond ... time.Hour / time.Duration(n) (a time.Duration,
+// counted in nanoseconds).
 func TestVerifConsts(t *testing.T) {
 	out := os.Getenv("VERIF_OUT")
 	if out == "" {
 		t.Skip("VERIF_OUT not set")
 	}
-	body := fmt.Sprintf("(* results.go: timeoutCheckGracePeriodMillis *)\nDefinition c03_grace : Z := %d%%Z.\n",
-		int64(timeoutCheckGracePeriodMillis))
+	name, text, value, unitNs, err := c03GraceDeclaration(".")
+	if err != nil {
+		t.Fatal(err)
+	}
+	body := fmt.Sprintf("(* results.go: const %s = %s *)\nDefinition c03_grace_value : Z := %s%%Z.\nDefinition c03_grace_unit_ns : Z := %s%%Z.\n",
+		name, text, value.String(), unitNs.String())
 	if err := os.WriteFile(out, []byte(body), 0o644); err != nil {
 		t.Fatal(err)
 	}
+}
+
+var c03TimeUnits = map[string]int64{
+	"Nanosecond": 1, "Microsecond": 1e3, "Millisecond": 1e6, "Second": 1e9, "Minute": 60e9, "Hour": 3600e9,
+}
+
+// value of a constant expression made of integer literals, products, sums, parentheses,
+// the time units and time.Duration(...) conversions; typed = it is a time.Duration
+func c03ConstExpr(e ast.Expr) (v *big.Int, typed bool, err error) {
+	switch x := e.(type) {
+	case *ast.BasicLit:
+		if x.Kind != token.INT {
+			return nil, false, fmt.Errorf("literal %s is not an integer", x.Value)
+		}
+		n, ok := new(big.Int).SetString(strings.ReplaceAll(x.Value, "_", ""), 0)
+		if !ok {
+			return nil, false, fmt.Errorf("cannot read literal %s", x.Value)
+		}
+		return n, false, nil
+	case *ast.ParenExpr:
+		return c03ConstExpr(x.X)
+	case *ast.SelectorExpr:
+		if pkg, ok := x.X.(*ast.Ident); ok && pkg.Name == "time" {
+			if u, ok := c03TimeUnits[x.Sel.Name]; ok {
+				return big.NewInt(u), true, nil
+			}
+		}
+		return nil, false, errors.New("unknown selector in the declaration")
+	case *ast.CallExpr:
+		if sel, ok := x.Fun.(*ast.SelectorExpr); ok && len(x.Args) == 1 {
+			if pkg, ok := sel.X.(*ast.Ident); ok && pkg.Name == "time" && sel.Sel.Name == "Duration" {
+				n, _, err := c03ConstExpr(x.Args[0])
+				return n, true, err
+			}
+		}
+		return nil, false, errors.New("unknown call in the declaration")
+	case *ast.BinaryExpr:
+		a, ta, err := c03ConstExpr(x.X)
+		if err != nil {
+			return nil, false, err
+		}
+		b, tb, err := c03ConstExpr(x.Y)
+		if err != nil {
+			return nil, false, err
+		}
+		switch x.Op {
+		case token.MUL:
+			return new(big.Int).Mul(a, b), ta || tb, nil
+		case token.ADD:
+			return new(big.Int).Add(a, b), ta || tb, nil
+		case token.SUB:
+			return new(big.Int).Sub(a, b), ta || tb, nil
+		}
+		return nil, false, errors.New("unknown operator in the declaration")
+	}
+	return nil, false, errors.New("unknown expression in the declaration")
+}
+
+func c03GraceDeclaration(dir string) (name, text string, value, unitNs *big.Int, err error) {
+	files, _ := filepath.Glob(filepath.Join(dir, "*.go"))
+	fset := token.NewFileSet()
+	found := 0
+	for _, path := range files {
+		if strings.HasSuffix(path, "_test.go") {
+			continue
+		}
+		src, rerr := os.ReadFile(path)
+		if rerr != nil {
+			return "", "", nil, nil, rerr
+		}
+		file, perr := parser.ParseFile(fset, path, src, parser.SkipObjectResolution)
+		if perr != nil {
+			return "", "", nil, nil, perr
+		}
+		for _, decl := range file.Decls {
+			gen, ok := decl.(*ast.GenDecl)
+			if !ok || gen.Tok != token.CONST {
+				continue
+			}
+			for _, spec := range gen.Specs {
+				vs, ok := spec.(*ast.ValueSpec)
+				if !ok {
+					continue
+				}
+				for i, id := range vs.Names {
+					if !strings.HasPrefix(id.Name, "timeoutCheckGracePeriod") || i >= len(vs.Values) {
+						continue
+					}
+					found++
+					v, typed, eerr := c03ConstExpr(vs.Values[i])
+					if eerr != nil {
+						return "", "", nil, nil, fmt.Errorf("%s: %w", id.Name, eerr)
+					}
+					if vs.Type != nil {
+						sel, ok := vs.Type.(*ast.SelectorExpr)
+						if !ok || sel.Sel.Name != "Duration" {
+							return "", "", nil, nil, fmt.Errorf("%s: declared with a type that is not understood", id.Name)
+						}
+						typed = true
+					}
+					unit := int64(0)
+					switch {
+					case typed:
+						unit = 1
+					case strings.HasSuffix(id.Name, "Millis"), strings.HasSuffix(id.Name, "Ms"):
+						unit = 1e6
+					case strings.HasSuffix(id.Name, "Seconds"), strings.HasSuffix(id.Name, "Secs"):
+						unit = 1e9
+					case strings.HasSuffix(id.Name, "Micros"):
+						unit = 1e3
+					case strings.HasSuffix(id.Name, "Nanos"):
+						unit = 1
+					default:
+						return "", "", nil, nil, fmt.Errorf("%s: an untyped number whose name does not say the unit", id.Name)
+					}
+					name, value, unitNs = id.Name, v, big.NewInt(unit)
+					text = string(src[fset.Position(vs.Values[i].Pos()).Offset:fset.Position(vs.Values[i].End()).Offset])
+				}
+			}
+		}
+	}
+	if found != 1 {
+		return "", "", nil, nil, fmt.Errorf("%d declarations of the timeout grace period found, want 1", found)
+	}
+	return name, text, value, unitNs, nil
 }
 
 type c03BadCase struct{}
@@ -266,6 +415,118 @@ func verifC03Assert(args []vsx) (res vsx) {
 	}
 	sort.Strings(kinds)
 	return vL(vBool(outcome.actualFailure == nil), vStrs(kinds))
+}
+
+// ---------------------------------------------------------------------------
+// c03.run: (reference-client def expected reported) through the real
+// runTestCasesForServer.  The server is an in-process "process" that answers the
+// ServerCompatRequest; the client is a recording fake clientRunner that reports
+// `reported` for the one test case.  Observed: the outcome recorded for the case
+// (as for c03.assert) - and that the message the client reported is still, field
+// by field, what it reported (the runner hands it to assert, it does not own it).
+// ---------------------------------------------------------------------------
+
+type c03Client struct {
+	reported *conformancev1.ClientResponseResult
+	sent     []*conformancev1.ClientCompatRequest
+}
+
+func (c *c03Client) sendRequest(req *conformancev1.ClientCompatRequest, whenDone func(string, *conformancev1.ClientCompatResponse, error)) error {
+	c.sent = append(c.sent, req)
+	go whenDone(req.TestName, &conformancev1.ClientCompatResponse{
+		TestName: req.TestName,
+		Result:   &conformancev1.ClientCompatResponse_Response{Response: c.reported},
+	}, nil)
+	return nil
+}
+func (c *c03Client) closeSend()              {}
+func (c *c03Client) waitForResponses() error { return nil }
+func (c *c03Client) isRunning() bool         { return true }
+func (c *c03Client) stop()                   {}
+
+type c03Printer struct{}
+
+func (c03Printer) Printf(string, ...any)               {}
+func (c03Printer) PrefixPrintf(string, string, ...any) {}
+
+func c03Outcome(results *testResults, name string) vsx {
+	results.mu.Lock()
+	outcome, ok := results.outcomes[name]
+	n := len(results.outcomes)
+	results.mu.Unlock()
+	if !ok || n != 1 {
+		return vErr("no-outcome-recorded")
+	}
+	if outcome.setupError || outcome.knownFailing || outcome.knownFlaky {
+		return vErr("unexpected-outcome-flags")
+	}
+	var kinds []string
+	switch e := outcome.actualFailure.(type) {
+	case nil:
+	case multiErrors:
+		for _, x := range e {
+			kinds = append(kinds, c03Kind(x))
+		}
+	default:
+		kinds = append(kinds, c03Kind(e))
+	}
+	sort.Strings(kinds)
+	return vL(vBool(outcome.actualFailure == nil), vStrs(kinds))
+}
+
+func verifC03Run(args []vsx) (res vsx) {
+	defer func() {
+		if r := recover(); r != nil {
+			if _, ok := r.(c03BadCase); ok {
+				res = vL(vS("bad-case"))
+				return
+			}
+			panic(r)
+		}
+	}()
+	isRef := args[0].boolean()
+	def := args[1]
+	const name = "verif/c03"
+	tc := &conformancev1.TestCase{
+		Request:          &conformancev1.ClientCompatRequest{TestName: name, StreamType: conformancev1.StreamType(def.l[0].i)},
+		ExpectedResponse: c03Result(args[2]),
+	}
+	for _, c := range def.l[1].l {
+		tc.OtherAllowedErrorCodes = append(tc.OtherAllowedErrorCodes, conformancev1.Code(c.i))
+	}
+	reported := c03Result(args[3])
+	// what a reference client adds for the runner: feedback travels inside the result
+	// (any other client may fill the field in as well; the runner then has no use for it)
+	if reported.NumUnsentRequests%2 == 1 {
+		reported.Feedback = []string{"the peer noticed something"}
+	}
+	asReported := proto.Clone(reported)
+	wantCase := proto.Clone(tc)
+	server := runInProcess([]string{"fake-server"}, func(ctx context.Context, _ []string, in io.ReadCloser, out, _ io.WriteCloser) error {
+		var req conformancev1.ServerCompatRequest
+		if err := internal.ReadDelimitedMessage(in, &req, "runner", time.Hour, 1<<20); err != nil {
+			return err
+		}
+		if err := internal.WriteDelimitedMessage(out, &conformancev1.ServerCompatResponse{Host: "127.0.0.1", Port: 9}); err != nil {
+			return err
+		}
+		<-ctx.Done()
+		return nil
+	})
+	results := newResults(1, &testTrie{}, &testTrie{}, nil)
+	client := &c03Client{reported: reported}
+	runTestCasesForServer(context.Background(), isRef, false, serverInstance{}, []*conformancev1.TestCase{tc}, nil, nil,
+		server, c03Printer{}, c03Printer{}, results, client, nil, false)
+	if len(client.sent) != 1 || client.sent[0].TestName != name {
+		return vErr("request-not-sent-once")
+	}
+	if !proto.Equal(reported, asReported) {
+		return vErr("reported-result-altered")
+	}
+	if !proto.Equal(tc, wantCase) {
+		return vErr("test-case-altered")
+	}
+	return c03Outcome(results, name)
 }
 
 func verifC03Canon(args []vsx) vsx {
